@@ -120,7 +120,7 @@ def tables_for(case):
         A = np.arange(65536, dtype=dt).reshape(16, 4096)
         return np.zeros_like(A), A
     if pat == "sampled-pairs":
-        shape = (16, case.get("cols", 65536))
+        shape = (case.get("rows", 16), case.get("cols", 65536))
         umax = UMAX[kind]
         nr = case["cfg"]["num_reserved"]
         A = rng.integers(0, umax + 1, shape).astype(dt)
@@ -238,15 +238,20 @@ def gen_cases(ctx):
         cases.append({"type": "table", "kind": "log16", "cfg": c, "pattern": "all-counters-vs-empty"})
         cases.append({"type": "table", "kind": "log16", "cfg": c, "pattern": "empty-vs-all-counters"})
         cases.append({"type": "table", "kind": "log16", "cfg": c, "pattern": "sampled-pairs", "seed": int(rng.integers(0, 2**31))})
+    for kind, (mc, nr) in (("log8", (2**32 - 1, 15)), ("log16", (2**32 - 1, 1023)), ("log8", (1000, 0)), ("log16", (10**6, 100))):
+        # odd shapes: cell counts that are not multiples of 8/16/64
+        cases.append({"type": "table", "kind": kind, "cfg": {"max_count": mc, "num_reserved": nr}, "pattern": "sampled-pairs",
+                      "seed": int(rng.integers(0, 2**31)), "rows": pick(rng, [7, 1, 33]), "cols": pick(rng, [1001, 17, 257])})
     for kind, mc, nr in F4_REGION:
         c = {"max_count": mc, "num_reserved": nr}
         if kind == "log8":
             cases.append({"type": "table", "kind": kind, "cfg": c, "pattern": "all-pairs-256"})
         else:
             cases.append({"type": "table", "kind": kind, "cfg": c, "pattern": "all-counters-vs-empty"})
-    for i in range(4):
+    # shapes incl. cell counts that are not multiples of 8/16/64 (chunked or vectorised kernels must not drop a tail)
+    for i, (dd, ww) in enumerate([(16, 2048), (33, 7), (1, 1), (5, 257), (8, 1009), (3, 1000), (1, 17), (17, 1)]):
         cases.append({"type": "table", "kind": "linear", "cfg": {}, "pattern": "linear-random", "seed": int(rng.integers(0, 2**31)),
-                      "depth": 16 if i == 0 else pick(rng, [1, 16, 33]), "width": 2048 if i == 0 else pick(rng, [1, 7, 2048])})
+                      "depth": dd, "width": ww})
     for i in range(6):
         cases.append({"type": "estimate", "seed": int(rng.integers(0, 2**31)), "width": int(rng.integers(1, 20)), "depth": int(rng.integers(1, 6))})
     for i, c in enumerate(cases):
